@@ -50,6 +50,7 @@ func NewShapeHmmAdapter(estimator MatrixBatchEstimator) (*ShapeHmmAdapter, error
 func (obj *ShapeHmmAdapter) Clone() *ShapeHmmAdapter {
   r := ShapeHmmAdapter{}
   r.Estimator = obj.Estimator.CloneMatrixBatchEstimator()
+  r.x = obj.x
   r.updateEstimate()
   return &r
 }
